@@ -549,3 +549,6 @@ func (s *Session) Leftovers(maxWait time.Duration) (Verdict, []G) {
 	close(stop)
 	return v, gs
 }
+
+// Done is closed when the Stream call has returned.
+func (r *Running) Done() <-chan struct{} { return r.done }
